@@ -23,7 +23,7 @@ ASSUMPTIONS = ['non-aromatic rings carry at most one double bond (pysmiles calls
 
 def budget(tier):
     if tier == 'thorough':
-        return dict(examples=1500, shards=16, procs=16)
+        return dict(examples=4000, shards=16, procs=16)
     return dict(examples=1200, shards=4, procs=4)
 
 
